@@ -348,6 +348,11 @@ Section Driver.
     | 8 => let* x := ptensor in let* t := ptensor in let* stepnr := tok in
            pret (eres (fun n' => eweights n')
                       (do g <- sample_grad n (x, t); net_step stepnr n (fst g)))
+    | 10 => let* data := ppairs in let* batch := pnat in let* e1 := tok in let* e2 := tok in
+            (* two consecutive calls of learn on the same network: optimizer state carries over *)
+            pret (eres (fun r : network NF * history NF => ehist (snd r) ++ eweights (fst r))
+                       (do r1 <- learn seq_pmap n (map fst data) (map snd data) None batch e1;
+                        learn seq_pmap (fst r1) (map fst data) (map snd data) None batch e2))
     | 9 => let* idx := pnat in let* x := ptensor in let* g := ptensor in
            pret (eres (fun r : tensor * tensor * option tensor =>
                          etensor (fst (fst r)) ++ etensor (snd (fst r)) ++ eopt etensor (snd r))
